@@ -179,7 +179,8 @@ type world struct {
 	prevVal map[string]uint64 // path|name -> last decoded value (monotonicity)
 	prevLim map[string]uint32
 	viol    *hlib.Violation
-	strict  bool // every snapshot must decode strictly
+	strict  bool             // every snapshot must decode strictly
+	bi      *debug.BuildInfo // build info of this world's processes (nil: the default)
 	satur   bool
 	stepChk func()
 }
@@ -218,7 +219,11 @@ func (w *world) close() {
 }
 
 func (w *world) newProc(name string) *proc {
-	p := &proc{p: w.s.NewProc(name, nil), f: counter.VerifNewFile(buildInfo)}
+	bi := w.bi
+	if bi == nil {
+		bi = buildInfo
+	}
+	p := &proc{p: w.s.NewProc(name, nil), f: counter.VerifNewFile(bi)}
 	w.procs = append(w.procs, p)
 	w.begunBy[p.p] = map[string]uint64{}
 	w.doneBy[p.p] = map[string]uint64{}
